@@ -99,3 +99,42 @@ theorem data_field_suffices : 1024 ≤ Gen.SIZEOF_BUNCH_DATA.toNat := by decide
 example : RB ⟨[0x12, 0x34, 0x01], 17, 0⟩ := ⟨by intro x hx; simp at hx; omega, by decide, by decide⟩
 
 end Utcp.BB
+
+namespace Utcp.BB
+
+/-- `bitbuf_read_init` never faults: it looks at the last byte of the datagram and nowhere else, whatever the bytes are -/
+theorem read_init_never_faults (data : Mem) : ∃ r, readInit data = some r := by
+  unfold readInit
+  by_cases h : data.length = 0
+  · rw [if_pos h]; exact ⟨_, rfl⟩
+  · rw [if_neg h, rd_of_lt _ _ (by omega)]
+    simp only [Option.bind_some]
+    split <;> exact ⟨_, rfl⟩
+
+/-- … and what it accepts is a read buffer in the sense of the theorems above: the logical end lies inside the array -/
+theorem read_init_gives_rb (data : Mem) (hd : BytesOK data) (rb : Buf) (h : readInit data = some (true, rb)) : RB rb := by
+  unfold readInit at h
+  by_cases h0 : data.length = 0
+  · rw [if_pos h0] at h; simp at h
+  · rw [if_neg h0, rd_of_lt _ _ (by omega)] at h
+    simp only [Option.bind_some] at h
+    split at h
+    · simp at h
+    · simp only [Option.some.injEq, Prod.mk.injEq, true_and] at h
+      subst h
+      refine ⟨hd, ?_, by simp⟩
+      simp only
+      have : ∀ fuel last cnt, initLoop fuel last cnt ≤ cnt := by
+        intro fuel
+        induction fuel with
+        | zero => intro last cnt; simp [initLoop]
+        | succ f ih =>
+          intro last cnt
+          unfold initLoop
+          split
+          · exact Nat.le_trans (ih _ _) (by omega)
+          · exact Nat.le_refl _
+      have := this 8 (data.getD (data.length - 1) 0) (data.length * 8 - 1)
+      omega
+
+end Utcp.BB
